@@ -127,8 +127,10 @@ class QueryType(object):
         self.translator = query._translator
         self.limit = limit
         self.offset = offset
+        # values which are built into the SQL of the query as constants (slice bounds, attribute names for getattr)
+        self.fixed_param_values = frozenset(query._translator.fixed_param_values.items())
     def __hash__(self):
-        result = hash(self.query_key)
+        result = hash(self.query_key) ^ hash(self.fixed_param_values)
         if self.limit is not None:
             result ^= hash(self.limit + 3)
         if self.offset is not None:
@@ -136,7 +138,8 @@ class QueryType(object):
         return result
     def __eq__(self, other):
         return type(other) is QueryType and self.query_key == other.query_key \
-               and self.limit == other.limit and self.offset == other.offset
+               and self.limit == other.limit and self.offset == other.offset \
+               and self.fixed_param_values == other.fixed_param_values
     def __ne__(self, other):
         return not self.__eq__(other)
 
